@@ -13,8 +13,8 @@ LEVEL = "exploration"
 TECHNIQUE = "exhaustive enumeration of (n, n_chunks) for the partition claim + Hypothesis-generated theta sets / chunk orders with save-load-concat compared to a direct recomputation of the metric"
 RULE = (
     "partition: every (n, n_chunks) with n<=14 and n_chunks<=C(n,2)+3, and n<=40 (thorough 70) with n_chunks in 1..12 and around "
-    "C(n,2); assembly: 0..8 posterior samples of both shipped types (incl. identical pairs -> exact 0 distances), a screen to "
-    "predict on, n_chunks in 1..pairs+3, an order of chunk files covering all chunks with repetitions, through the API and "
+    "C(n,2); assembly: 0..8 (sometimes 12/46) posterior samples of both shipped types (incl. identical pairs -> exact 0 distances), a screen to "
+    "predict on (occasionally 12 or 46 samples = 66 / 1035 pairs), n_chunks in 1..pairs+3, an order of chunk files covering all chunks with repetitions, through the API and "
     "(1 in 4) the calculate_distance_matrix CLI. Non-trivial = n_chunks>=2 with a repeated or out-of-order chunk, or "
     "n_chunks > C(n,2) (partition cases: n_chunks>=2 and n>=3). distinct = distinct case JSON."
 )
@@ -45,17 +45,23 @@ def exhaustive(tier):
 @st.composite
 def _assembly(draw):
     sc = draw(S.simple_screen(n_rows=(1, 8), allow_same=True))
-    n = draw(st.integers(0, 8))
+    n = draw(st.sampled_from([0, 1, 2, 3, 4, 5, 6, 7, 8, 3, 4, 5, 12, 46]))  # 46 samples = 1035 pairs (> 1000) once in a while
     kind = draw(st.sampled_from(["additive", "additive", "interaction"]))
     thetas = []
     table = draw(S.effect_table(S.full_table_pairs(sc["ns"], sc["nt"]))) if kind == "interaction" else None
     for i in range(n):
+        if len(thetas) >= 9:  # large collections: perturb one entry of an earlier sample (cheap to draw, all distinct)
+            base = dict(thetas[i % 9])
+            base["W"] = [list(r) for r in base["W"]]
+            base["W"][0][0] = float(i) / 7.0
+            thetas.append(base)
+            continue
         if thetas and draw(st.integers(0, 4)) == 0:
             thetas.append(thetas[draw(st.integers(0, len(thetas) - 1))])  # identical pair -> distance exactly 0
         else:
             thetas.append(draw(S.theta_params(kind, sc["ns"], sc["nt"], D=2, table=table)))
     pairs = n * (n - 1) // 2
-    n_chunks = draw(st.integers(1, pairs + 3))
+    n_chunks = draw(st.integers(1, pairs + 3)) if n <= 8 else draw(st.sampled_from([1, 2, 3, 7, 16]))
     base = list(range(n_chunks))
     extra = draw(st.lists(st.integers(0, n_chunks - 1), max_size=4))
     order = draw(st.permutations(base + extra))
